@@ -383,6 +383,7 @@ def m_table_remove_entry(ip, fr, c, t, args, st):
     if kent is not None and kent[0] == "struct" and kent[2].get("#tid") == f.get("#tid") and is_int(kent[2].get(ip.r.E_SIZE)):
         ip.gdel(st, "found", known)
         ip.gdel(st, "unlinked", known)
+        ip.gdel(st, "unhinged", known)
         ip.gdel(st, "pending", known)
         size = kent[2][ip.r.E_SIZE]
         k, v = kent[2].get(ip.r.E_KEY), kent[2].get(ip.r.E_VAL)
